@@ -11,6 +11,7 @@ use std::{
 
 use serde_json::{json, Value};
 
+mod c14cmd;
 mod evalcmd;
 mod parsecmd;
 mod manifestcmd;
@@ -80,6 +81,7 @@ fn main() {
 		"parse" => run_lines(parsecmd::handle),
 		"manifest" => run_lines(manifestcmd::handle),
 		"numop" => run_lines(numop::handle),
+		"c14" => run_lines(c14cmd::handle),
 		"version" => println!("jrharness 1"),
 		_ => {
 			eprintln!("usage: jrharness <eval|...>");
